@@ -28,7 +28,29 @@ func c05Doc(seed uint64, d int, workDir string) *document.Document {
 	document.VerifResetGlobals()
 	s := NewScript(r, false, workDir)
 	s.NoReopen = true
-	switch d % 4 {
+	switch d % 6 {
+	case 4, 5: // a small package of another producer, opened: the serialised parts add up to a few hundred bytes .. ~9 KiB
+		// (straddles the 4 KiB buffer sizes of archive/zip and bufio; a New() document never gets below ~16 KiB)
+		n := r.Range(0, 40)
+		if d%6 == 5 {
+			n = r.Range(0, 6000)
+		}
+		body := strings.Repeat("a", n)
+		pkg := gen.MinimalPackage(func(m map[string]string) {
+			m["word/document.xml"] = strings.Replace(m["word/document.xml"], "hello", "hello"+body, 1)
+			if r.Chance(1, 3) {
+				delete(m, "word/styles.xml")
+				m["word/_rels/document.xml.rels"] = strings.Replace(m["word/_rels/document.xml.rels"], `<Relationship Id="rId1" Type="http://schemas.openxmlformats.org/officeDocument/2006/relationships/styles" Target="styles.xml"/>`, "", 1)
+				m["[Content_Types].xml"] = strings.Replace(m["[Content_Types].xml"], `<Override PartName="/word/styles.xml" ContentType="application/vnd.openxmlformats-officedocument.wordprocessingml.styles+xml"/>`, "", 1)
+			}
+		})
+		if od, err := document.OpenFromMemory(io.NopCloser(bytes.NewReader(pkg))); err == nil && od != nil && od.Body != nil {
+			if r.Chance(1, 3) {
+				od.AddParagraph("appended")
+			}
+			return od
+		}
+		s.Doc.AddParagraph("x")
 	case 0: // tiny
 		s.Doc.AddParagraph("x")
 	case 1: // text only, mid size
